@@ -1552,7 +1552,7 @@ def run(ctx, sf):
     kinds = ["product", "product+bs", "mixed", "pure"]
     for it in range(ctx.n(16, 180)):
         kind = kinds[it % 4]
-        n = [2, 2, 3, 2, 1, 3, 2, 4][it % 8]
+        n = [2, 2, 3, 2, 1, 1, 2, 4, 2, 2, 3, 2, 1, 3, 2, 4][it % 16]     # it = 5: one mode at hbar != 2
         if ctx.tier == "quick" and n == 3 and kind != "product" and it % 3:
             n = 2
         spec = S.rand_state_spec(rng, n, kind)
